@@ -315,6 +315,46 @@ extern "C" void sched_point_c(uintptr_t site, uint64_t *frame)
         split_unlocked_rmw(site, frame);
 }
 
+// ---------------------------------------------------------------- asynchronous signal fault
+// A signal that arrives while a library function runs makes the kernel build a signal frame below the red zone of whatever stack the
+// thread is on (rsp - 128 downwards). Code that keeps live data below rsp - 128 loses it. The fault is simulated deterministically:
+// the call is single-stepped (trap flag) and at the N-th instruction boundary, N from the hidden stream, the bytes [rsp - 128 - S,
+// rsp - 128) of the call stack are overwritten with hidden-stream bytes; then the trap flag is cleared and the call runs on at full
+// speed. The handler itself runs on the alternate stack.
+static volatile uint64_t g_trap_count = 0, g_trap_fire_at = 0;
+static volatile int g_trap_fired = 0;
+static uint8_t g_trap_bytes[4096];
+static size_t g_trap_len = 0;
+static uintptr_t g_trap_lo = 0, g_trap_hi = 0;
+static void on_trap(int, siginfo_t *, void *uc_)
+{
+        ucontext_t *uc = (ucontext_t *) uc_;
+        if (!g_trap_fire_at) {
+                uc->uc_mcontext.gregs[REG_EFL] &= ~0x100ll;
+                return;
+        }
+        g_trap_count++;
+        if (g_trap_count >= g_trap_fire_at) {
+                uintptr_t rsp = (uintptr_t) uc->uc_mcontext.gregs[REG_RSP];
+                uintptr_t top = rsp - 128, bot = top - g_trap_len;
+                if (bot >= g_trap_lo && top <= g_trap_hi) {
+                        memcpy((void *) bot, g_trap_bytes, g_trap_len);
+                        g_trap_fired = 1;
+                }
+                g_trap_fire_at = 0;
+                uc->uc_mcontext.gregs[REG_EFL] &= ~0x100ll;
+        }
+}
+static void install_trap_handler()
+{
+        struct sigaction sa;
+        memset(&sa, 0, sizeof sa);
+        sa.sa_sigaction = on_trap;
+        sa.sa_flags = SA_SIGINFO | SA_ONSTACK | SA_NODEFER;
+        sigemptyset(&sa.sa_mask);
+        sigaction(SIGTRAP, &sa, nullptr);
+}
+
 // ---------------------------------------------------------------- Env
 Env::Env()
 {
@@ -332,6 +372,7 @@ Env::Env()
         frame = (SimFrame *) aligned_alloc(64, sizeof(SimFrame));
         memset(frame, 0, sizeof(SimFrame));
         install_fault_handler();
+        install_trap_handler();
 }
 Env::~Env()
 {
@@ -351,6 +392,8 @@ void Env::begin_run(uint64_t hidden_seed, RunResult *r)
         tainted = false;
         call_cpu_limit_s = 0;
         cancel_is_benign = false;
+        signal_faults = false;
+        g_trap_fire_at = 0;
         hidden.fill(poison_ref.data(), poison_ref.size());
         // the stack phase is undeclared state too: the ABI only promises rsp % 16 == 8 at entry, so every run picks one
         // of the four phases modulo 64 (a 64-byte aligned trampoline stack would always enter at 56)
@@ -497,6 +540,18 @@ uint64_t Env::call(const char *entry, void *fn, std::initializer_list<uint64_t> 
         res->steps++;
         g_fault.valid = false;
         uint64_t rax = 0;
+        if (signal_faults) {
+                // one simulated signal per call, at an instruction boundary drawn log-uniformly from 1 .. 2048
+                uint64_t hx = hidden.next();
+                g_trap_count = 0;
+                g_trap_fired = 0;
+                g_trap_fire_at = 1 + (hx >> 8) % (1ull << (1 + hx % 11));
+                g_trap_len = 512 + (size_t) ((hx >> 40) % 3500);
+                hidden.fill(g_trap_bytes, g_trap_len);
+                g_trap_lo = (uintptr_t) stk_lo;
+                g_trap_hi = (uintptr_t) call_rsp;
+                f.in_flags |= 0x100; // TF: the trampoline loads the flags right before the call
+        }
         g_fault_armed = 1;
         if (sigsetjmp(g_fault_jmp, 1) == 0) {
                 if (call_cpu_limit_s > 0) {
@@ -516,6 +571,7 @@ uint64_t Env::call(const char *entry, void *fn, std::initializer_list<uint64_t> 
         } else {
                 // a fault inside the library call
                 g_fault_armed = 0;
+                g_trap_fire_at = 0;
                 if (g_after_call_hook)
                         g_after_call_hook();
                 if (g_fault.signo == SIGVTALRM) {
@@ -580,6 +636,11 @@ uint64_t Env::call(const char *entry, void *fn, std::initializer_list<uint64_t> 
                         res->ev.add(hash_str(sig.c_str()));
                 }
                 throw RunAbort();
+        }
+        if (signal_faults) {
+                g_trap_fire_at = 0;
+                if (g_trap_fired)
+                        res->cov.hit("fault_signal_frame_written_below_the_red_zone_during_a_call");
         }
         calls_by_entry[entry]++;
 
